@@ -80,6 +80,22 @@ Proof.
   ring_simplify. nia.
 Qed.
 
+Lemma flat_map_length_const {A B} (f : A -> list B) l n :
+  (forall a, In a l -> length (f a) = n) -> length (flat_map f l) = (length l * n)%nat.
+Proof.
+  induction l as [|a r IH]; cbn [flat_map length]; intros E; [reflexivity|].
+  rewrite app_length, (E a (or_introl eq_refl)), IH by (intros b Hb; apply E; now right). lia.
+Qed.
+Lemma units_cells_length MH MV i : length (units MH MV i) = length (cells MH MV i).
+Proof.
+  unfold units, cells. cbv zeta. rewrite map_length, !prod_length.
+  erewrite flat_map_length_const; [reflexivity|]. intros x _.
+  erewrite flat_map_length_const; [reflexivity|]. intros y _. apply map_length.
+Qed.
+Lemma units_length MH MV i : eh i <= MH -> ev i <= MV ->
+  Z.of_nat (length (units MH MV i)) = 2 ^ (MH - eh i) * 2 ^ (MH - eh i) * 2 ^ (MV - ev i).
+Proof. intros. rewrite units_cells_length. now apply cells_length. Qed.
+
 (* the density test of the code is a covering test *)
 Theorem dense_iff MH MV T (grp : list eid) :
   eh T <= MH -> ev T <= MV ->
